@@ -1,8 +1,973 @@
-//! `logfmt` driver (stub; see DESIGN.md).
+//! `logfmt` driver (property C12): drives the REAL `LogWriter` / `LogReader` of raindb (through
+//! `raindb::verif::VLogWriter` / `VLogReader`) on SimFs and records what they did, for validation
+//! against `spec/RainLog_Trace.tla`.
+//!
+//! A scenario = fresh log file, optional filler record that puts the writer at a chosen block
+//! offset, a sequence of appends interleaved with writer re-openings (clean close + open in append
+//! mode, or "writer died between two fragments of the last record" = the file is cut at that
+//! fragment boundary, then a new writer opens it in append mode), then the whole file is read
+//! back; then the file is cut at a descending list of byte positions and read back after every
+//! cut. After every open and append the real writer's block offset and the real file length are
+//! logged; after the scenario the raw bytes are parsed into physical records and trailers
+//! (Layout); every record the reader returns is identified byte for byte with the payload of an
+//! appended record (payloads are pseudo-random per (seed, scenario, id)), id 0 if it equals none.
+//!
+//! Modes (one run = one seed):
+//!   boundary  start offset = START[seed mod 18]; singles, pairs (x reopen variants), stops and
+//!             sampled triples of record lengths chosen relative to the writer's CURRENT block
+//!             offset (leaving Hdr+1 .. 0 bytes, spilling 1 byte, two-block exact fills, ...)
+//!   model     start offset = START[seed mod 18]; every behaviour of the design model family of
+//!             MC_RainLog (all sequences of <= --maxrecs lengths of MCLens, one reopen at every
+//!             position, one stop at every fragment boundary), structural cuts
+//!   random    random lengths / reopen / stop / cut bytes
+//!   enum      start offset = START[seed mod 18]; EVERY record length in [--lo, --hi] (default
+//!             0 ..= 2*Block+16), one case each, logged compactly as Sweep events (32 cases a line);
+//!             --window W restricts to lengths within W of a block-boundary length
+//! `--parts P` (boundary, model, enum): the scenario list of a start offset is split into P fixed
+//! strata and the run takes stratum (seed div 18) mod P: 18*P consecutive seeds cover everything
+//! exactly once (enum: every P-th chunk of 32 lengths plus the lengths within 64 of a boundary).
+//! `--max-scen N` samples N scenarios of a run's list (seeded).
+//!
+//! No verdict is made here: every verdict comes from TLC replaying the trace.
 
-use std::collections::HashMap;
+use rand::rngs::StdRng;
+use rand::seq::SliceRandom;
+use rand::{Rng, RngCore, SeedableRng};
+use raindb::fs::FileSystem;
+use raindb::verif::{VLogReader, VLogWriter};
+use serde_json::{json, Map, Value};
+use std::collections::{BTreeSet, HashMap};
+use std::path::{Path, PathBuf};
+use std::sync::Arc;
+use std::time::Duration;
 
-pub fn cmd(_m: &HashMap<String, String>) -> i32 {
-    eprintln!("logfmt driver not implemented yet");
-    2
+use crate::common::{peek_panics, Watchdog};
+use crate::simfs::SimFs;
+use crate::trace::write_ndjson;
+
+const BLOCK: usize = 32768;
+const HDR: usize = 7;
+const ROOT: &str = "/simdb";
+const LOG_PATH: &str = "/simdb/wal/wal-1.log";
+const MAX_LINES_PER_FILE: usize = 15000;
+const SWEEP_CASES_PER_LINE: usize = 32;
+
+// ---------------------------------------------------------------------------------------------
+// the harness's own format arithmetic (independent of raindb and of the TLA+ text; the trace
+// specification cross-checks it: Stop offsets, Sweep start offsets)
+// ---------------------------------------------------------------------------------------------
+
+/// payload lengths of the fragments of a record of `len` bytes appended at block offset `woff`,
+/// and the number of trailer bytes written before the first fragment
+fn plan(woff: usize, len: usize) -> (usize, Vec<usize>) {
+    let mut w = woff % BLOCK;
+    let mut pad = 0;
+    if BLOCK - w < HDR {
+        pad = BLOCK - w;
+        w = 0;
+    }
+    let mut left = len;
+    let mut frags = vec![];
+    loop {
+        let space = BLOCK - w - HDR;
+        let n = left.min(space);
+        frags.push(n);
+        left -= n;
+        w = (w + HDR + n) % BLOCK;
+        if left == 0 {
+            break;
+        }
+    }
+    (pad, frags)
+}
+
+fn woff_after(woff: usize, len: usize) -> usize {
+    let (pad, frags) = plan(woff, len);
+    (woff + pad + frags.iter().map(|n| n + HDR).sum::<usize>()) % BLOCK
+}
+
+/// payload capacity of the block the next fragment goes to
+fn cap_at(woff: usize) -> usize {
+    let w = woff % BLOCK;
+    if BLOCK - w < HDR {
+        BLOCK - HDR
+    } else {
+        BLOCK - w - HDR
+    }
+}
+
+/// the boundary family of MC_RainLog!MCLens
+fn abs_lens() -> Vec<usize> {
+    let mut s: BTreeSet<usize> = [0, 1, BLOCK, 2 * BLOCK + 3].into_iter().collect();
+    for l in (BLOCK - 2 * HDR - 1)..=(BLOCK - HDR + 1) {
+        s.insert(l);
+    }
+    s.into_iter().collect()
+}
+
+/// the same family relative to the writer's current block offset
+fn rel_lens(woff: usize) -> Vec<usize> {
+    let cap = cap_at(woff) as i64;
+    let full = (BLOCK - HDR) as i64;
+    let mut s: BTreeSet<usize> = [0, 1, BLOCK, 2 * BLOCK + 3].into_iter().collect();
+    for d in -(HDR as i64 + 1)..=1 {
+        if cap + d >= 0 {
+            s.insert((cap + d) as usize);
+        }
+    }
+    for d in -1..=1 {
+        s.insert((cap + full + d) as usize);
+    }
+    s.into_iter().collect()
+}
+
+fn rel_short(woff: usize) -> Vec<usize> {
+    let cap = cap_at(woff);
+    let mut s: BTreeSet<usize> = [0, 1, cap, cap + 1, 2 * BLOCK + 3].into_iter().collect();
+    if cap >= 1 {
+        s.insert(cap - 1);
+    }
+    s.into_iter().collect()
+}
+
+/// starting block offsets: 0, the two smallest reachable ones (offsets 1..Hdr-1 cannot be reached
+/// by any writer: every fragment carries a header), Block-Hdr-8 .. Block-1
+fn start_offsets() -> Vec<usize> {
+    let mut v = vec![0, HDR, HDR + 1];
+    v.extend((BLOCK - HDR - 8)..=(BLOCK - 1));
+    v
+}
+
+// ---------------------------------------------------------------------------------------------
+// CRC32C (Castagnoli) and the LevelDB mask, for the independent parse of the raw bytes
+// ---------------------------------------------------------------------------------------------
+
+fn crc32c_table() -> [u32; 256] {
+    let mut t = [0u32; 256];
+    for i in 0..256u32 {
+        let mut c = i;
+        for _ in 0..8 {
+            c = if c & 1 != 0 { (c >> 1) ^ 0x82F6_3B78 } else { c >> 1 };
+        }
+        t[i as usize] = c;
+    }
+    t
+}
+
+fn crc32c(table: &[u32; 256], data: &[u8]) -> u32 {
+    let mut c = !0u32;
+    for b in data {
+        c = table[((c ^ *b as u32) & 0xff) as usize] ^ (c >> 8);
+    }
+    !c
+}
+
+fn mask(c: u32) -> u32 {
+    ((c >> 15) | (c << 17)).wrapping_add(0xa282_ead8)
+}
+
+struct Layout {
+    /// [type, len]: type 0..3 fragment with len payload bytes, 4 trailer of len bytes, 5 the first
+    /// len bytes of a cut-off fragment or trailer
+    items: Vec<[usize; 2]>,
+    zero: bool,
+    crc: bool,
+}
+
+fn parse_layout(table: &[u32; 256], data: &[u8], check_crc: bool) -> Layout {
+    let mut items = vec![];
+    let mut zero = true;
+    let mut crc = true;
+    let mut pos = 0;
+    while pos < data.len() {
+        let off = pos % BLOCK;
+        if BLOCK - off < HDR {
+            let want = BLOCK - off;
+            let have = want.min(data.len() - pos);
+            if data[pos..pos + have].iter().any(|b| *b != 0) {
+                zero = false;
+            }
+            items.push([if have == want { 4 } else { 5 }, have]);
+            pos += have;
+            continue;
+        }
+        if data.len() - pos < HDR {
+            items.push([5, data.len() - pos]);
+            break;
+        }
+        let stored = u32::from_le_bytes([data[pos], data[pos + 1], data[pos + 2], data[pos + 3]]);
+        let len = u16::from_le_bytes([data[pos + 4], data[pos + 5]]) as usize;
+        let ty = data[pos + 6] as usize;
+        if data.len() - pos < HDR + len {
+            items.push([5, data.len() - pos]);
+            break;
+        }
+        if check_crc && mask(crc32c(table, &data[pos + HDR..pos + HDR + len])) != stored {
+            crc = false;
+        }
+        // an unknown type byte is reported as such (the specification knows only 0..3)
+        items.push([if ty <= 3 { ty } else { 9 }, len]);
+        pos += HDR + len;
+    }
+    Layout { items, zero, crc }
+}
+
+// ---------------------------------------------------------------------------------------------
+// scenarios
+// ---------------------------------------------------------------------------------------------
+
+#[derive(Clone, Debug)]
+enum Op {
+    Append(usize),
+    /// clean close, then open in append mode
+    Reopen,
+    /// the writer of the previous Append died after its j-th fragment; a new writer opens the file
+    StopAfter(usize),
+}
+
+#[derive(Clone, Debug)]
+enum Cuts {
+    None,
+    /// structurally distinct bytes of every item, plus k random bytes
+    Structural(usize),
+}
+
+#[derive(Clone, Debug)]
+struct Scenario {
+    start_off: usize,
+    ops: Vec<Op>,
+    cuts: Cuts,
+}
+
+struct Ctx {
+    seed: u64,
+    big: Vec<u8>,
+    table: [u32; 256],
+    lines: Arc<parking_lot::Mutex<Vec<Value>>>,
+    wd: Arc<Watchdog>,
+    cases: u64,
+    reads: u64,
+}
+
+fn ev(name: &str, v: Value) -> Value {
+    let mut m = match v {
+        Value::Object(m) => m,
+        _ => Map::new(),
+    };
+    m.insert("e".into(), json!(name));
+    Value::Object(m)
+}
+
+impl Ctx {
+    fn emit(&self, name: &str, v: Value) {
+        self.lines.lock().push(ev(name, v));
+    }
+
+    /// payload of record `id` of scenario `sc`: a slice of the run's random buffer
+    fn payload(&self, sc: u64, id: usize, len: usize) -> &[u8] {
+        let h = (sc.wrapping_mul(0x9E37_79B9_7F4A_7C15) ^ (id as u64).wrapping_mul(0xC2B2_AE3D_27D4_EB4F))
+            .wrapping_add(self.seed.wrapping_mul(0x1656_67B1_9E37_79F9));
+        let room = self.big.len() - len;
+        let start = (h >> 11) as usize % (room + 1);
+        &self.big[start..start + len]
+    }
+
+    fn file_len(fs: &SimFs) -> usize {
+        fs.get_file_size(Path::new(LOG_PATH)).unwrap_or(0) as usize
+    }
+
+    /// read the whole file with the real reader; identify every returned record
+    fn read_all(&mut self, fs: &SimFs, sc: u64, appended: &[usize]) -> (Vec<Value>, bool) {
+        self.reads += 1;
+        let fsd: Arc<dyn FileSystem> = Arc::new(fs.clone());
+        let mut recs = vec![];
+        let mut err = false;
+        let wd = Arc::clone(&self.wd);
+        wd.enter(&format!("read scenario {}", sc));
+        match VLogReader::new(fsd, Path::new(LOG_PATH)) {
+            Err(_) => err = true,
+            Ok(mut r) => {
+                let mut last_id = 0usize;
+                loop {
+                    match r.read_record() {
+                        Ok(Some(bytes)) => {
+                            // candidates: appended records with exactly these bytes; prefer the
+                            // first one after the previously returned id (equal payloads - e.g.
+                            // two empty records - are indistinguishable, and that is fine: the
+                            // property is about bytes)
+                            let mut cand: Vec<usize> = vec![];
+                            for (i, len) in appended.iter().enumerate() {
+                                if *len == bytes.len() && self.payload(sc, i + 1, *len) == &bytes[..] {
+                                    cand.push(i + 1);
+                                }
+                            }
+                            let id = cand
+                                .iter()
+                                .cloned()
+                                .find(|c| *c > last_id)
+                                .or_else(|| cand.first().cloned())
+                                .unwrap_or(0);
+                            if id != 0 {
+                                last_id = id;
+                            }
+                            recs.push(json!({"id": id, "len": bytes.len(), "ok": id != 0}));
+                            if recs.len() > appended.len() + 8 {
+                                err = true;
+                                break;
+                            }
+                        }
+                        Ok(None) => break,
+                        Err(_) => {
+                            err = true;
+                            break;
+                        }
+                    }
+                }
+            }
+        }
+        wd.leave();
+        (recs, err)
+    }
+
+    fn layout_event(&self, fs: &SimFs) -> Value {
+        let disk = fs.disk();
+        let empty = vec![];
+        let data = disk.file(Path::new(LOG_PATH)).unwrap_or(&empty);
+        let l = parse_layout(&self.table, data, true);
+        json!({"items": l.items, "zero": l.zero, "crc": l.crc, "filelen": data.len()})
+    }
+
+    fn open_writer(&self, fs: &SimFs, append: bool, sc: u64) -> Option<VLogWriter> {
+        let fsd: Arc<dyn FileSystem> = Arc::new(fs.clone());
+        self.wd.enter(&format!("open scenario {}", sc));
+        let w = VLogWriter::new(fsd, Path::new(LOG_PATH), append);
+        self.wd.leave();
+        match w {
+            Ok(w) => {
+                self.emit(
+                    "Open",
+                    json!({"append": append, "sc": sc, "ok": true, "woff": w.block_offset(),
+                           "filelen": Ctx::file_len(fs)}),
+                );
+                Some(w)
+            }
+            Err(_) => {
+                self.emit(
+                    "Open",
+                    json!({"append": append, "sc": sc, "ok": false, "woff": 0, "filelen": 0}),
+                );
+                None
+            }
+        }
+    }
+
+    fn append(&self, fs: &SimFs, w: &mut VLogWriter, sc: u64, id: usize, len: usize) -> bool {
+        let data = self.payload(sc, id, len).to_vec();
+        self.wd.enter(&format!("append scenario {} id {} len {}", sc, id, len));
+        let r = w.append(&data);
+        self.wd.leave();
+        self.emit(
+            "Append",
+            json!({"id": id, "len": len, "ok": r.is_ok(), "woff_after": w.block_offset(),
+                   "filelen_after": Ctx::file_len(fs)}),
+        );
+        r.is_ok()
+    }
+
+    fn truncated(fs: &SimFs, n: usize) -> SimFs {
+        let mut disk = fs.disk();
+        if let Some(f) = disk.file_mut(Path::new(LOG_PATH)) {
+            f.truncate(n);
+        }
+        SimFs::from_disk(ROOT, disk)
+    }
+
+    /// bytes at which cutting gives structurally different files
+    fn structural_cuts(&self, fs: &SimFs, extra_random: usize, rng: &mut StdRng) -> Vec<usize> {
+        let disk = fs.disk();
+        let empty = vec![];
+        let data = disk.file(Path::new(LOG_PATH)).unwrap_or(&empty);
+        let l = parse_layout(&self.table, data, false);
+        let mut s: BTreeSet<usize> = BTreeSet::new();
+        let mut o = 0usize;
+        for it in &l.items {
+            let size = if it[0] <= 3 || it[0] == 9 { HDR + it[1] } else { it[1] };
+            for x in [o, o + 1, o + HDR - 1, o + HDR, o + HDR + 1, o + size - 1, o + size / 2] {
+                if x >= o && x < o + size {
+                    s.insert(x);
+                }
+            }
+            o += size;
+        }
+        for _ in 0..extra_random {
+            if !data.is_empty() {
+                s.insert(rng.gen_range(0..data.len()));
+            }
+        }
+        s.into_iter().filter(|x| *x < data.len()).collect()
+    }
+
+    fn run_scenario(&mut self, sc: u64, s: &Scenario, rng: &mut StdRng) {
+        self.cases += 1;
+        let mut fs = SimFs::new(ROOT);
+        let mut appended: Vec<usize> = vec![];
+        let mut w = match self.open_writer(&fs, false, sc) {
+            Some(w) => w,
+            None => return,
+        };
+        if s.start_off > 0 {
+            let len = s.start_off - HDR;
+            appended.push(len);
+            self.append(&fs, &mut w, sc, appended.len(), len);
+        }
+        // file length before the last append (for the stop arithmetic)
+        let mut before_last = Ctx::file_len(&fs);
+        for op in &s.ops {
+            match op {
+                Op::Append(len) => {
+                    before_last = Ctx::file_len(&fs);
+                    appended.push(*len);
+                    self.append(&fs, &mut w, sc, appended.len(), *len);
+                }
+                Op::Reopen => {
+                    drop(w);
+                    self.emit("Close", json!({}));
+                    w = match self.open_writer(&fs, true, sc) {
+                        Some(w) => w,
+                        None => return,
+                    };
+                }
+                Op::StopAfter(j) => {
+                    let len = *appended.last().unwrap();
+                    let (pad, frags) = plan(before_last % BLOCK, len);
+                    if *j == 0 || *j >= frags.len() {
+                        continue; // not a boundary between two fragments
+                    }
+                    let n = before_last + pad + frags[..*j].iter().map(|x| x + HDR).sum::<usize>();
+                    drop(w);
+                    fs = Ctx::truncated(&fs, n);
+                    self.emit("Stop", json!({"after_frag": j, "n": n}));
+                    w = match self.open_writer(&fs, true, sc) {
+                        Some(w) => w,
+                        None => return,
+                    };
+                }
+            }
+        }
+        drop(w);
+        self.emit("Close", json!({}));
+        let lay = self.layout_event(&fs);
+        self.emit("Layout", lay);
+        let (recs, err) = self.read_all(&fs, sc, &appended);
+        self.emit("Read", json!({"recs": recs, "err": err}));
+        if let Cuts::Structural(k) = s.cuts {
+            let mut cuts = self.structural_cuts(&fs, k, rng);
+            cuts.reverse();
+            let mut i = 0;
+            for n in cuts {
+                fs = Ctx::truncated(&fs, n);
+                self.emit("Truncate", json!({"n": n}));
+                if i % 4 == 0 {
+                    let lay = self.layout_event(&fs);
+                    self.emit("Layout", lay);
+                }
+                i += 1;
+                let (recs, err) = self.read_all(&fs, sc, &appended);
+                self.emit("Read", json!({"recs": recs, "err": err}));
+            }
+        }
+    }
+
+    /// one enumeration case: fresh file, filler, one record; returns the per-case columns
+    fn sweep_case(&mut self, sc: u64, off: usize, len: usize) -> (usize, usize, Value, bool, bool, Value) {
+        self.cases += 1;
+        let fs = SimFs::new(ROOT);
+        let fsd: Arc<dyn FileSystem> = Arc::new(fs.clone());
+        self.wd.enter(&format!("sweep off {} len {}", off, len));
+        let mut appended = vec![];
+        let mut woff = BLOCK + 1; // reported as out of range if the writer could not be opened
+        if let Ok(mut w) = VLogWriter::new(fsd, Path::new(LOG_PATH), false) {
+            let mut ok = true;
+            if off > 0 {
+                appended.push(off - HDR);
+                let d = self.payload(sc, 1, off - HDR).to_vec();
+                ok &= w.append(&d).is_ok();
+            }
+            appended.push(len);
+            let d = self.payload(sc, appended.len(), len).to_vec();
+            ok &= w.append(&d).is_ok();
+            if ok {
+                woff = w.block_offset();
+            }
+        }
+        self.wd.leave();
+        let disk = fs.disk();
+        let empty = vec![];
+        let data = disk.file(Path::new(LOG_PATH)).unwrap_or(&empty);
+        let l = parse_layout(&self.table, data, true);
+        let flen = data.len();
+        let (recs, _err) = self.read_all(&fs, sc, &appended);
+        (woff, flen, json!(l.items), l.zero, l.crc, json!(recs))
+    }
+}
+
+// ---------------------------------------------------------------------------------------------
+// scenario lists per mode
+// ---------------------------------------------------------------------------------------------
+
+fn nfrags(woff: usize, len: usize) -> usize {
+    plan(woff, len).1.len()
+}
+
+fn union(a: Vec<usize>, b: Vec<usize>) -> Vec<usize> {
+    let s: BTreeSet<usize> = a.into_iter().chain(b).collect();
+    s.into_iter().collect()
+}
+
+fn boundary_scenarios(off: usize, rng: &mut StdRng) -> Vec<Scenario> {
+    let mut out = vec![];
+    let first = union(rel_lens(off), abs_lens());
+    // singles, cut everywhere it matters
+    for &l in &first {
+        out.push(Scenario { start_off: off, ops: vec![Op::Append(l)], cuts: Cuts::Structural(3) });
+    }
+    // pairs x reopen variants
+    for &l1 in &first {
+        let w1 = woff_after(off, l1);
+        for &l2 in &rel_lens(w1) {
+            out.push(Scenario { start_off: off, ops: vec![Op::Append(l1), Op::Append(l2)], cuts: Cuts::None });
+            out.push(Scenario {
+                start_off: off,
+                ops: vec![Op::Append(l1), Op::Reopen, Op::Append(l2)],
+                cuts: Cuts::None,
+            });
+            out.push(Scenario {
+                start_off: off,
+                ops: vec![Op::Reopen, Op::Append(l1), Op::Reopen, Op::Append(l2), Op::Reopen],
+                cuts: Cuts::None,
+            });
+        }
+    }
+    // writer dies between two fragments; a later writer appends
+    for &l1 in &first {
+        let nf = nfrags(off, l1);
+        for j in 1..nf {
+            for (i, &l2) in rel_short(0).iter().enumerate() {
+                out.push(Scenario {
+                    start_off: off,
+                    ops: vec![Op::Append(l1), Op::StopAfter(j), Op::Append(l2), Op::Append(1)],
+                    cuts: if i < 2 { Cuts::Structural(2) } else { Cuts::None },
+                });
+            }
+            // two writers die in a row
+            out.push(Scenario {
+                start_off: off,
+                ops: vec![
+                    Op::Append(l1),
+                    Op::StopAfter(j),
+                    Op::Append(2 * BLOCK + 3),
+                    Op::StopAfter(1),
+                    Op::Append(5),
+                ],
+                cuts: Cuts::None,
+            });
+        }
+    }
+    // sampled triples with a reopen somewhere
+    for _ in 0..40 {
+        let l1 = *first.choose(rng).unwrap();
+        let w1 = woff_after(off, l1);
+        let l2 = *rel_lens(w1).choose(rng).unwrap();
+        let w2 = woff_after(w1, l2);
+        let l3 = *rel_lens(w2).choose(rng).unwrap();
+        let mut ops = vec![Op::Append(l1), Op::Append(l2), Op::Append(l3)];
+        let at = rng.gen_range(0..=3);
+        ops.insert(at, Op::Reopen);
+        out.push(Scenario { start_off: off, ops, cuts: Cuts::None });
+    }
+    out
+}
+
+fn model_scenarios(off: usize, maxrecs: usize) -> Vec<Scenario> {
+    let lens = abs_lens();
+    let mut seqs: Vec<Vec<usize>> = vec![vec![]];
+    let mut all: Vec<Vec<usize>> = vec![];
+    for _ in 0..maxrecs {
+        let mut next = vec![];
+        for s in &seqs {
+            for &l in &lens {
+                let mut t = s.clone();
+                t.push(l);
+                next.push(t);
+            }
+        }
+        all.extend(next.iter().cloned());
+        seqs = next;
+    }
+    let mut out = vec![];
+    for (si, s) in all.iter().enumerate() {
+        let plain: Vec<Op> = s.iter().map(|l| Op::Append(*l)).collect();
+        out.push(Scenario {
+            start_off: off,
+            ops: plain.clone(),
+            cuts: if s.len() == 1 || si % 5 == 0 { Cuts::Structural(0) } else { Cuts::None },
+        });
+        // one clean reopen at every position
+        for p in 0..s.len() {
+            let mut ops = plain.clone();
+            ops.insert(p, Op::Reopen);
+            out.push(Scenario { start_off: off, ops, cuts: Cuts::None });
+        }
+        // one stop at every fragment boundary of every record
+        let mut w = off;
+        for (i, &l) in s.iter().enumerate() {
+            let nf = nfrags(w, l);
+            for j in 1..nf {
+                let mut ops = plain.clone();
+                ops.insert(i + 1, Op::StopAfter(j));
+                out.push(Scenario {
+                    start_off: off,
+                    ops,
+                    cuts: if (si + j) % 3 == 0 { Cuts::Structural(0) } else { Cuts::None },
+                });
+            }
+            w = woff_after(w, l);
+        }
+    }
+    out
+}
+
+fn random_len(rng: &mut StdRng, woff: usize) -> usize {
+    match rng.gen_range(0..10) {
+        0..=2 => rng.gen_range(0..64),
+        3..=5 => *rel_lens(woff).choose(rng).unwrap(),
+        6 => rng.gen_range(0..BLOCK),
+        7 => rng.gen_range(BLOCK - 40..BLOCK + 40),
+        8 => rng.gen_range(BLOCK..3 * BLOCK + 100),
+        _ => {
+            // ends within Hdr+2 bytes of a block boundary, some blocks further on
+            let cap = cap_at(woff);
+            let k = rng.gen_range(0..3);
+            let base = cap + k * (BLOCK - HDR);
+            (base + rng.gen_range(0..4)).saturating_sub(rng.gen_range(0..HDR + 3))
+        }
+    }
+}
+
+fn random_scenarios(n: usize, rng: &mut StdRng) -> Vec<Scenario> {
+    let starts = start_offsets();
+    let mut out = vec![];
+    for _ in 0..n {
+        let off = if rng.gen_bool(0.5) {
+            *starts.choose(rng).unwrap()
+        } else {
+            rng.gen_range(HDR..BLOCK)
+        };
+        let mut ops = vec![];
+        let mut w = off;
+        let nrec = rng.gen_range(1..=6);
+        for _ in 0..nrec {
+            if rng.gen_bool(0.25) {
+                ops.push(Op::Reopen);
+            }
+            let l = random_len(rng, w);
+            ops.push(Op::Append(l));
+            let nf = nfrags(w, l);
+            if nf > 1 && rng.gen_bool(0.35) {
+                ops.push(Op::StopAfter(rng.gen_range(1..nf)));
+                w = 0;
+            } else {
+                w = woff_after(w, l);
+            }
+        }
+        let cuts = if rng.gen_bool(0.5) { Cuts::Structural(6) } else { Cuts::None };
+        out.push(Scenario { start_off: off, ops, cuts });
+    }
+    out
+}
+
+/// lengths to sweep: all of lo..=hi, or only those within `window` of a length at which the
+/// fragment structure changes (0, and cap + k*(Block-Hdr) for the block capacity cap at `off`)
+fn sweep_lengths(off: usize, lo: usize, hi: usize, window: Option<usize>) -> Vec<usize> {
+    match window {
+        None => (lo..=hi).collect(),
+        Some(wn) => {
+            let cap = cap_at(off);
+            let mut marks = vec![0usize];
+            let mut b = cap;
+            while b <= hi + wn {
+                marks.push(b);
+                b += BLOCK - HDR;
+            }
+            (lo..=hi)
+                .filter(|l| marks.iter().any(|m| (*l as i64 - *m as i64).unsigned_abs() as usize <= wn))
+                .collect()
+        }
+    }
+}
+
+// ---------------------------------------------------------------------------------------------
+// command
+// ---------------------------------------------------------------------------------------------
+
+struct Writer {
+    out: PathBuf,
+    chunk: Arc<std::sync::atomic::AtomicUsize>,
+    events: usize,
+}
+
+impl Writer {
+    fn current(&self) -> usize {
+        self.chunk.load(std::sync::atomic::Ordering::SeqCst)
+    }
+
+    fn path_of(&self, chunk: usize) -> String {
+        self.out
+            .join(format!("trace_{:04}.ndjson", chunk))
+            .to_string_lossy()
+            .to_string()
+    }
+
+    fn flush(&mut self, lines: &mut Vec<Value>) {
+        if lines.is_empty() {
+            return;
+        }
+        lines.push(json!({"e": "End"}));
+        let path = PathBuf::from(self.path_of(self.current()));
+        write_ndjson(&path, lines).unwrap();
+        self.events += lines.len();
+        self.chunk.fetch_add(1, std::sync::atomic::Ordering::SeqCst);
+        lines.clear();
+    }
+}
+
+pub fn cmd(m: &HashMap<String, String>) -> i32 {
+    let mut m = m.clone();
+    // a replay file carries the arguments of the run it reproduces
+    if let Some(p) = m.get("replay").cloned() {
+        let rp: Value = match std::fs::read_to_string(&p).ok().and_then(|s| serde_json::from_str(&s).ok()) {
+            Some(v) => v,
+            None => {
+                eprintln!("cannot read replay file {}", p);
+                return 2;
+            }
+        };
+        if let Some(args) = rp.get("args").and_then(|a| a.as_object()) {
+            for (k, v) in args {
+                if k != "out" && k != "replay" {
+                    m.insert(k.clone(), v.as_str().unwrap_or("").to_string());
+                }
+            }
+        }
+        m.insert("seed".into(), rp["seed"].as_u64().unwrap_or(1).to_string());
+        m.insert("mode".into(), rp["mode"].as_str().unwrap_or("boundary").to_string());
+        m.insert("runs".into(), "1".into());
+    }
+    let out = PathBuf::from(m.get("out").cloned().unwrap_or_else(|| "out/logfmt".into()));
+    std::fs::create_dir_all(&out).unwrap();
+    let seed0: u64 = crate::arg_of(&m, "seed", 1);
+    let runs: u64 = crate::arg_of(&m, "runs", 1);
+    let mode: String = m.get("mode").cloned().unwrap_or_else(|| "boundary".into());
+    let max_scen: usize = crate::arg_of(&m, "max-scen", 0);
+    // --parts P: the (fixed, shuffled) scenario list of a start offset is split into P strata; the
+    // run with seed s takes start offset s mod 18 and stratum (s div 18) mod P, so any 18*P
+    // consecutive seeds execute every scenario of every start offset exactly once
+    let parts: usize = crate::arg_of(&m, "parts", 1usize).max(1);
+    let maxrecs: usize = crate::arg_of(&m, "maxrecs", 2);
+    let nscen: usize = crate::arg_of(&m, "scen", 150);
+    let lo: usize = crate::arg_of(&m, "lo", 0);
+    let hi: usize = crate::arg_of(&m, "hi", 2 * BLOCK + 16);
+    let window: Option<usize> = m.get("window").and_then(|v| v.parse().ok());
+    let deadline = Duration::from_secs(crate::arg_of(&m, "deadline", 60));
+    // Sweep lines are heavy (32 cases each): fewer lines per file
+    let sweep_lines: usize = crate::arg_of(&m, "sweep-lines", 700);
+    if !["boundary", "model", "random", "enum"].contains(&mode.as_str()) {
+        eprintln!("logfmt: unknown mode {}", mode);
+        return 2;
+    }
+
+    let table = crc32c_table();
+    let starts = start_offsets();
+    let results: Arc<parking_lot::Mutex<Vec<Value>>> = Arc::new(parking_lot::Mutex::new(vec![]));
+    let mut wr = Writer {
+        out: out.clone(),
+        chunk: Arc::new(std::sync::atomic::AtomicUsize::new(0)),
+        events: 0,
+    };
+    // lines not yet written; shared by consecutive runs so that one file holds many short runs
+    let lines: Arc<parking_lot::Mutex<Vec<Value>>> = Arc::new(parking_lot::Mutex::new(vec![]));
+
+    for (ri, seed) in (seed0..seed0 + runs).enumerate() {
+        let run_no = ri as u64 + 1;
+        let mut rng = StdRng::seed_from_u64(seed.wrapping_mul(0x2545_F491_4F6C_DD1D) ^ 0xC12);
+        let mut big = vec![0u8; 4 * BLOCK + 4096];
+        rng.fill_bytes(&mut big);
+
+        // replay file of this run
+        let rpath = out.join(format!("replay_{}.json", seed));
+        let mut args = Map::new();
+        for (k, v) in &m {
+            if k != "out" && k != "seed" && k != "runs" && k != "replay" {
+                args.insert(k.clone(), json!(v));
+            }
+        }
+        std::fs::write(
+            &rpath,
+            serde_json::to_string(&json!({"driver": "logfmt", "seed": seed, "mode": mode, "args": args})).unwrap(),
+        )
+        .unwrap();
+
+        // watchdog: the real code did not come back - dump what there is and stop
+        let chunk2 = Arc::clone(&wr.chunk);
+        let lines2 = Arc::clone(&lines);
+        let results2 = Arc::clone(&results);
+        let out2 = out.clone();
+        let rpath2 = rpath.clone();
+        let wd = Watchdog::start(
+            deadline,
+            Box::new(move |what| {
+                let mut l = lines2.lock().clone();
+                l.push(json!({"e": "Hang", "what": what}));
+                l.push(json!({"e": "End"}));
+                let c = chunk2.load(std::sync::atomic::Ordering::SeqCst);
+                let path = out2.join(format!("trace_{:04}.ndjson", c));
+                let _ = write_ndjson(&path, &l);
+                let mut res = results2.lock().clone();
+                res.push(json!({"seed": seed, "status": "hang", "detail": what,
+                    "trace": path.to_string_lossy(), "replay": rpath2.to_string_lossy(),
+                    "events": l.len(), "cases": 0, "panics": peek_panics()}));
+                let _ = std::fs::write(
+                    out2.join("results.json"),
+                    serde_json::to_string_pretty(&json!({"runs": res, "aborted": true})).unwrap(),
+                );
+                std::process::exit(3);
+            }),
+        );
+
+        let mut ctx = Ctx {
+            seed,
+            big,
+            table,
+            lines: Arc::clone(&lines),
+            wd: Arc::clone(&wd),
+            cases: 0,
+            reads: 0,
+        };
+        let mut part = 0;
+        let reset = |part: usize| {
+            json!({"e": "Reset", "run": run_no, "seed": seed, "tag": format!("{}.p{}", mode, part),
+                   "nk": 0, "driver": "logfmt"})
+        };
+        lines.lock().push(reset(part));
+        let first_chunk = wr.current();
+        let events_before = wr.events + lines.lock().len() - 1;
+        let off = starts[(seed % starts.len() as u64) as usize];
+        let part_no = ((seed / starts.len() as u64) % parts as u64) as usize;
+
+        if mode == "enum" {
+            let mut lens = sweep_lengths(off, lo, hi, window);
+            if parts > 1 {
+                // stratum: every parts-th chunk of 32 lengths, plus the lengths within 64 bytes of
+                // a length at which the fragment structure changes
+                let near: BTreeSet<usize> = sweep_lengths(off, lo, hi, Some(64)).into_iter().collect();
+                lens = lens
+                    .into_iter()
+                    .filter(|l| ((l - lo) / SWEEP_CASES_PER_LINE) % parts == part_no || near.contains(l))
+                    .collect();
+            }
+            let mut i = 0;
+            let mut sc = 0u64;
+            while i < lens.len() {
+                // a run of consecutive lengths, at most SWEEP_CASES_PER_LINE
+                let mut j = i + 1;
+                while j < lens.len() && lens[j] == lens[j - 1] + 1 && j - i < SWEEP_CASES_PER_LINE {
+                    j += 1;
+                }
+                sc += 1;
+                let (mut woffs, mut flens, mut lays, mut zeros, mut crcs, mut reads) =
+                    (vec![], vec![], vec![], vec![], vec![], vec![]);
+                for &len in &lens[i..j] {
+                    let (w, f, l, z, c, r) = ctx.sweep_case(sc, off, len);
+                    woffs.push(w);
+                    flens.push(f);
+                    lays.push(l);
+                    zeros.push(z);
+                    crcs.push(c);
+                    reads.push(r);
+                }
+                ctx.emit(
+                    "Sweep",
+                    json!({"sc": sc, "off": off, "from": lens[i], "n": j - i, "woffs": woffs,
+                           "flens": flens, "lays": lays, "zeros": zeros, "crcs": crcs, "reads": reads}),
+                );
+                i = j;
+                let mut l = lines.lock();
+                if l.len() >= sweep_lines && i < lens.len() {
+                    wr.flush(&mut l);
+                    part += 1;
+                    l.push(reset(part));
+                }
+            }
+        } else {
+            let mut list = match mode.as_str() {
+                "boundary" => boundary_scenarios(off, &mut rng),
+                "model" => model_scenarios(off, maxrecs),
+                _ => random_scenarios(nscen, &mut rng),
+            };
+            if parts > 1 && mode != "random" {
+                let mut fixed = StdRng::seed_from_u64(0xC12 ^ off as u64);
+                list.shuffle(&mut fixed);
+                list = list
+                    .into_iter()
+                    .enumerate()
+                    .filter(|(i, _)| i % parts == part_no)
+                    .map(|(_, s)| s)
+                    .collect();
+            }
+            if max_scen > 0 && list.len() > max_scen {
+                list.shuffle(&mut rng);
+                list.truncate(max_scen);
+            }
+            let n = list.len();
+            for (i, s) in list.iter().enumerate() {
+                ctx.run_scenario(i as u64 + 1, s, &mut rng);
+                let mut l = lines.lock();
+                if l.len() >= MAX_LINES_PER_FILE && i + 1 < n {
+                    wr.flush(&mut l);
+                    part += 1;
+                    l.push(reset(part));
+                }
+            }
+        }
+        wd.stop();
+        let panics = peek_panics();
+        let last_chunk;
+        {
+            let mut l = lines.lock();
+            if !panics.is_empty() {
+                l.push(json!({"e": "Panic", "n": panics.len()}));
+            }
+            last_chunk = wr.current();
+            let limit = if mode == "enum" { sweep_lines } else { MAX_LINES_PER_FILE };
+            if l.len() >= limit {
+                wr.flush(&mut l);
+            }
+        }
+        let traces: Vec<String> = (first_chunk..=last_chunk).map(|c| wr.path_of(c)).collect();
+        let events = wr.events + lines.lock().len() - events_before;
+        results.lock().push(json!({
+            "seed": seed, "status": "ok", "mode": mode, "start_off": off, "part": part_no,
+            "trace": traces.first().cloned().unwrap_or_default(), "traces": traces,
+            "replay": rpath.to_string_lossy(), "events": events, "cases": ctx.cases,
+            "reads": ctx.reads, "panics": Vec::<String>::new(),
+        }));
+    }
+    wr.flush(&mut lines.lock());
+    let res = results.lock().clone();
+    std::fs::write(
+        out.join("results.json"),
+        serde_json::to_string_pretty(&json!({"runs": res, "aborted": false})).unwrap(),
+    )
+    .unwrap();
+    0
 }
